@@ -70,4 +70,25 @@ GROUPS = {
             dict(name="group_state_record_observation", complete=True, targets=["GroupState::record_observation"]),
         ],
     ),
+    "core_unit": dict(
+        crate="metrique-writer-core",
+        prefix="unit::verif_kani::",
+        modules={"metrique-writer-core/src/unit.rs": "kani/core/unit.rs"},
+        target_files="metrique-writer-core/src/unit.rs",
+        props=["C19"],
+        jobs=14,
+        harnesses=[
+            dict(name="ratio_from_" + f, complete=True, targets=["Convert::RATIO"], bound="From = " + f + ", To = all 20 bit/byte(/second) tags; constants") for f in ['byte', 'kilobyte', 'megabyte', 'gigabyte', 'terabyte', 'bit', 'kilobit', 'megabit', 'gigabit', 'terabit', 'byte_ps', 'kilobyte_ps', 'megabyte_ps', 'gigabyte_ps', 'terabyte_ps', 'bit_ps', 'kilobit_ps', 'megabit_ps', 'gigabit_ps', 'terabit_ps']
+        ] + [
+            dict(name="ratio_time_all_pairs", complete=True, targets=["Convert::RATIO"], bound="all 9 ordered pairs of time tags"),
+            dict(name="ratio_none_to_any", complete=True, targets=["Convert::RATIO"]),
+            dict(name="tag_units_are_the_declared_ones", complete=True, targets=["UnitTag::UNIT"]),
+            dict(name="convert_structure_all_observations", complete=True, targets=["Convert::convert"], timeout=600,
+                 bound="all observations (all u64 / f64 payloads) for 6 representative pairs; loop-free"),
+            dict(name="convert_preserves_quantity_small_integers", complete=False, targets=["Convert::convert"], timeout=600,
+                 bound="unsigned values below 2^16 for 3 pairs (float product out of reach for all values)"),
+            dict(name="with_unit_checks_then_converts", complete=True, targets=["WithUnit::write"], timeout=600,
+                 bound="all u32 payloads; honest / lying-unit / string values"),
+        ],
+    ),
 }
